@@ -339,6 +339,67 @@ EN_ERRORS = {'ref': '#REF!', 'name': '#NAME?', 'value': '#VALUE!', 'div': '#DIV/
              'spill': '#SPILL!', 'calc': '#CALC!', 'circ': '#CIRC!', 'error': '#ERROR!', 'null': '#NULL!'}
 
 
+_FN_TABLE = {}
+
+
+def _function_names(eng):
+    """field of language::Functions -> English function name.  The names come from the real table (the native
+    replay binary runs harness h_probe_function_names, which prints Function::to_localized_name for every function
+    of the `en` language); the field <-> variant pairing is read from the arms of Function::to_localized_name in
+    the current source."""
+    import os, re, json, subprocess, tempfile
+    out = os.environ.get('MIRSYM_OUT')
+    if not out:
+        raise Unsupported('function-name table: no build directory')
+    if out in _FN_TABLE:
+        return _FN_TABLE[out]
+    cache = os.path.join(out, 'fn_names.json')
+    if os.path.exists(cache):
+        names = json.load(open(cache))
+    else:
+        fd, path = tempfile.mkstemp(prefix='icverif-cases-', dir='/var/tmp')
+        try:
+            with os.fdopen(fd, 'w') as f:
+                f.write('case h_probe_function_names\nend\n')
+            p = subprocess.run([os.path.join(out, 'verif_replay_dev'), path], stdout=subprocess.PIPE, stderr=subprocess.DEVNULL, timeout=120)
+        finally:
+            os.unlink(path)
+        names = {}
+        for line in p.stdout.decode('utf-8', 'replace').splitlines():
+            m = re.match(r'obs fn str ([0-9a-f]+)\s*$', line)
+            if m:
+                k, _, v = bytes.fromhex(m.group(1)).decode('utf-8').partition('=')
+                names[k] = v
+        if len(names) < 100:
+            raise Unsupported('function-name table: the native probe printed %d names' % len(names))
+        tmp = cache + '.%d.tmp' % os.getpid()
+        json.dump(names, open(tmp, 'w'))
+        os.replace(tmp, cache)
+    src = open(os.path.join(out, 'src', 'src', 'functions', 'mod.rs')).read()
+    i = src.index('fn to_localized_name')
+    j = src.index('\n    }\n', i)
+    pairs = re.findall(r'Function::(\w+)\s*=>\s*functions\.(?:r#)?(\w+)\.clone\(\)', src[i:j])
+    table = {}
+    for variant, field in pairs:
+        if variant not in names:
+            raise Unsupported('function-name table: no name for ' + variant)
+        table[field] = names[variant]
+    _FN_TABLE[out] = table
+    return table
+
+
+def _functions_en(eng):
+    from .mcore import mkstr
+    fd = eng.td.lookup('language::Functions')
+    if fd is None:
+        return Opaque('language.functions')
+    table = _function_names(eng)
+    missing = [f for f in fd.fields if f not in table]
+    if missing:
+        raise Unsupported('language::Functions has fields without a name: %s' % missing[:5])
+    return Agg([mkstr(table[f]) for f in fd.fields], fd.path)
+
+
 def _language_en(eng):
     """the `en` Language: code, boolean and error names concrete (harness h_probe_language_en prints the native
     values and the per-path validation compares them on every run), the function-name table opaque"""
@@ -351,10 +412,11 @@ def _language_en(eng):
     vals = {'name': mkstr('English'), 'code': mkstr('en'),
             'booleans': Agg([mkstr(EN_BOOLEANS[f]) for f in bd.fields], bd.path),
             'errors': Agg([mkstr(EN_ERRORS[f]) for f in ed.fields], ed.path),
-            'functions': Opaque('language.functions')}
+            'functions': _functions_en(eng)}
     if sorted(ld.fields) != sorted(vals):
         raise Unsupported('language::Language has fields this intercept does not know')
-    eng.assumptions.add('Language "en": code/booleans/errors concrete (validated natively by h_probe_language_en), function names opaque')
+    eng.assumptions.add('Language "en": code/booleans/errors concrete (validated natively by h_probe_language_en); function names read from the '
+                        'real table through the native probe h_probe_function_names')
     return Agg([vals[f] for f in ld.fields], ld.path)
 
 
